@@ -16,6 +16,7 @@ import (
 	"github.com/corazawaf/coraza/v3/internal/verif/probe"
 	"github.com/corazawaf/coraza/v3/internal/verif/runner"
 	"github.com/corazawaf/coraza/v3/internal/verif/scen"
+	"github.com/corazawaf/coraza/v3/internal/verif/vrt"
 	"github.com/corazawaf/coraza/v3/types"
 )
 
@@ -25,7 +26,7 @@ func init() {
 		Level: "model_checking",
 		Rule: "configuration = side {request, response} x limit L in 1..5 x in-memory limit M in {L, 1, L-1} (request side: M<L spills to a temp file) x action {Reject, ProcessPartial} x body processor {urlencoded, RAW via ctl} x optional per-transaction ctl:requestBodyLimit/responseBodyLimit in {2, 0, -1} (non-positive values must not take effect); " +
 			"breadth-first search over all sequences (depth <= 4 quick / 6 thorough) of 13 body-supplying calls {Write(0..3 bytes), ReadFrom(reader with Len, 1/2/3/5 bytes), ReadFrom(plain reader, 1/2/3/5 bytes), ReadFrom(reader failing after 2 bytes)}; byte i of the supplied stream is 'a'+i so loss, duplication and reordering are visible; " +
-			"on every transition the returned (interruption, n, err), the body reader content, REQUEST_BODY/RESPONSE_BODY after the body phase, INBOUND/OUTBOUND_DATA_ERROR and the body-phase counter are compared with an arithmetic model; a state is (stored bytes, bytes offered, interruption, body-phase count, limit flag)",
+			"on every transition the returned (interruption, n, err), the body reader content, REQUEST_BODY/RESPONSE_BODY after the body phase, INBOUND/OUTBOUND_DATA_ERROR and the body-phase counter are compared with an arithmetic model; a state is (stored bytes, bytes offered, interruption, body-phase count, limit flag); every history is then repeated on the pool-recycled transaction object, which must behave identically",
 		Assumptions: []string{
 			"what a connector supplies after a Reject has been returned is outside the property (those states are terminal)",
 			"the body phase is entered the canonical way (headers phase first), as the limit-triggered partial processing requires",
@@ -403,6 +404,16 @@ func run(c *runner.Ctx) {
 			key, terminal := execute(w, cf, h, func(sig, text string) {
 				c.Violation(sig, fmt.Sprintf("configuration:\n%scalls: %v\n%s", conf, histNames(h), text), kase{cf, append([]int{}, h...)})
 			})
+			// the same history again on the object the first pass returned to the pool: buffers must start empty
+			vrt.PoolMode = 1
+			execute(w, cf, h, func(sig, text string) {})
+			key2, _ := execute(w, cf, h, func(sig, text string) {
+				c.Violation("recycled:"+sig, fmt.Sprintf("configuration:\n%scalls (second transaction on the recycled object, same calls before): %v\n%s", conf, histNames(h), text), kase{cf, append([]int{}, h...)})
+			})
+			vrt.PoolMode = 0
+			if key2 != key {
+				c.Violation("recycled:state-differs", fmt.Sprintf("configuration:\n%scalls: %v\nfresh object reaches %s, recycled object %s", conf, histNames(h), key, key2), kase{cf, append([]int{}, h...)})
+			}
 			c.Outcome(key)
 			return key, !terminal && !c.Expired()
 		})
